@@ -32,8 +32,9 @@ structure Addr where
   path : String
 deriving DecidableEq, Repr
 
-/-- `address.Parse`: strip `/orbitdb/`, first segment must be a CID, the rest is the path -/
-def parse (isCid : String → Bool) (s : String) : Option Addr :=
+/-- the splitting step of `address.Parse` (and all of `address.IsValid`): strip `/orbitdb/`, first
+segment must be a CID, the rest is the path -/
+def parse0 (isCid : String → Bool) (s : String) : Option Addr :=
   let s' := if hasPrefix "/orbitdb/" s then (s.drop "/orbitdb/".length).copy else s
   match segments s' with
   | [] => none
@@ -42,20 +43,33 @@ def parse (isCid : String → Bool) (s : String) : Option Addr :=
 /-- `Address.String()` -/
 def print (a : Addr) : String := joinAddr a.root a.path
 
+/-- does the printed form of `a` (`String()` cleans it) still name `a`'s root? -/
+def staysBelowRoot (isCid : String → Bool) (a : Addr) : Bool :=
+  match parse0 isCid (print a) with
+  | some b => b.root == a.root
+  | none => false
+
+/-- `address.Parse` after the `fix:` commit (finding F28): an address whose path climbs out of its
+root (`/orbitdb/<r1>/../<r2>/x` prints as `/orbitdb/<r2>/x`, another database) is refused -/
+def parse (isCid : String → Bool) (s : String) : Option Addr :=
+  match parse0 isCid s with
+  | some a => if staysBelowRoot isCid a then some a else none
+  | none => none
+
 /-- `address.IsValid(name) == nil`: the name itself is an address -/
-def isAddress (isCid : String → Bool) (name : String) : Bool := (parse isCid name).isSome
+def isAddress (isCid : String → Bool) (name : String) : Bool := (parse0 isCid name).isSome
 
 /-- `DetermineAddress` after the `fix:` commit: the manifest hash `h` (a function of name, type and
 access controller) must still be the root of the joined, cleaned path -/
 def determine (isCid : String → Bool) (h name : String) : Option Addr :=
   if isAddress isCid name then none else
-  match parse isCid (joinAddr h name) with
+  match parse0 isCid (joinAddr h name) with
   | some a => if a.root == h then some a else none
   | none => none
 
 /-- the pinned tree returned whatever the cleaned path parsed to (finding F10) -/
 def determinePinned (isCid : String → Bool) (h name : String) : Option Addr :=
-  if isAddress isCid name then none else parse isCid (joinAddr h name)
+  if isAddress isCid name then none else parse0 isCid (joinAddr h name)
 
 /-- `datastoreKey(directory, addr)` as cleaned segments (the directory the cache uses, removed by Drop) -/
 def datastoreKey (dir : List String) (a : Addr) : List String :=
